@@ -252,19 +252,22 @@ def hasWait (b : BP) : Bool := b.segs.any (·.fn.isWait)
 
 /-- `_makeWaitDurations` / the same loop inside the forger: every 'waituntil' segment gets the
     duration `t - elapsed`, where `elapsed` already contains the earlier resolved waits. -/
+def consOk (d : Rat) : Except Err (List Rat) → Except Err (List Rat)
+  | .ok ds => .ok (d :: ds)
+  | .error e => .error e
+
 def resolveGo : List Seg → Rat → Except Err (List Rat)
   | [], _ => .ok []
   | s :: rest, elapsed =>
     if s.fn.isWait then
       match s.args with
       | .num t :: _ =>
-        let d := t - elapsed
-        if d < 0 then .error .value
-        else (resolveGo rest (elapsed + d)).map (d :: ·)
+        if t - elapsed < 0 then .error .value
+        else consOk (t - elapsed) (resolveGo rest t)
       | _ => .error .type
     else
       match s.dur with
-      | .num d => (resolveGo rest (elapsed + d)).map (d :: ·)
+      | .num d => consOk d (resolveGo rest (elapsed + d))
       | _ => .error .type      -- None / string durations cannot be summed
 
 def resolveWaits (b : BP) : Except Err (List Rat) := resolveGo b.segs 0
